@@ -1,5 +1,6 @@
 /- engines `conc` and `locks`: what the theorems promise for the concurrent campaigns.
    conc replay rounds=<n>   -> rounds-with-exactly-one-winner=<n>     (C07.exactly_one_winner, C19.operations_atomic)
+   conc replay-rotation trials=<n> -> replays-accepted=0              (C07.window_code with one handshake in between + add_is_one_critical_section)
    conc salts               -> unrecognised=0                         (C08 salts_recognised; C19)
    conc nat churn           -> ok                                     (C19 lock facts of natmap; C04.NatInv)
    conc cipherlist          -> bad-snapshots=0                        (C01.snapshot_is_perm, C19)
@@ -15,6 +16,7 @@ def step (args : List String) : String :=
     match (field? fs "rounds").bind parseNat? with
     | some n => s!"rounds-with-exactly-one-winner={n}"
     | none => "bad-op"
+  | "replay-rotation" :: _ => "replays-accepted=0"  -- C07: a replay one handshake later is refused, whatever the interleaving
   | ["cipherlist"] => "bad-snapshots=0"
   | ["nat", "churn"] => "ok"                           -- C19/C04: the association table stays consistent under churn
   | ["salts"] => "unrecognised=0"                     -- C08: every issued salt is recognised, whatever the interleaving
